@@ -32,10 +32,7 @@ func unstableNames(v ssa.Value) string {
 	if c, ok := v.(*ssa.Call); ok && core.Short(core.CalleeName(c)) == "(*math/rand.Rand).Float64" {
 		return "r"
 	}
-	if p, ok := v.(*ssa.Parameter); ok {
-		return p.Name()
-	}
-	return ""
+	return core.ParamIndexName(v)
 }
 
 func jitterAlg() *core.Alg {
@@ -62,7 +59,7 @@ func checkJitterFormula(r *core.Run, o *core.O) {
 	a := jitterAlg()
 	for _, in := range rets {
 		got := a.Norm(in.(*ssa.Return).Results[0])
-		want := core.ParsePoly("int((1 + d - 2*d*r)*base)")
+		want := core.ParsePoly("int((1 + d - 2*d*r)*p1)") // p1 = the base duration
 		if !got.Equal(want) {
 			o.Fail(p.InstrPos(in), "AroundDuration returns %s, expected %s", got, want)
 			continue
@@ -142,7 +139,7 @@ func c06(r *core.Run) {
 			return
 		}
 		r.Fn(core.FuncName(f))
-		isExec := core.CallOfValue(core.IsParam("exec"))
+		isExec := core.CallOfValue(core.ParamAt(f, 2))
 		if len(core.Instrs(f, isExec)) == 0 {
 			// role: the function-typed parameter returning (sql.Result, error)
 			isExec = core.CallOfValue(func(v ssa.Value) bool { _, ok := v.(*ssa.Parameter); return ok })
@@ -171,7 +168,7 @@ func c06(r *core.Run) {
 		// the keys deleted are the keys parameter
 		for _, d := range dels {
 			args := core.Args(d.(ssa.CallInstruction))
-			if !core.DependsOn(args[len(args)-1], core.IsParam("keys")) {
+			if !core.DependsOn(args[len(args)-1], core.ParamAt(f, 3)) {
 				o.Fail(p.InstrPos(d), "the deleted keys do not derive from the keys argument")
 			}
 		}
@@ -180,8 +177,8 @@ func c06(r *core.Run) {
 	// ---- D2 doTake ----
 	doTake := p.Func(cachePkg, "node", "doTake")
 	var takeBody *ssa.Function
-	isQuery := core.CallOfValue(core.IsFreeVar("query"))
-	isCacheVal := core.CallOfValue(core.IsFreeVar("cacheVal"))
+	isQuery := core.CallOfValue(core.CapturedParam(doTake, 4))
+	isCacheVal := core.CallOfValue(core.CapturedParam(doTake, 5))
 	isGetCache := core.CallMethod("cache.node", "doGetCache")
 	if doTake != nil {
 		for _, a := range doTake.AnonFuncs {
@@ -284,7 +281,7 @@ func c06(r *core.Run) {
 		for _, b := range bar {
 			args := core.Args(b)
 			if len(args) >= 3 {
-				if mc, isMC := args[2].(*ssa.MakeClosure); isMC && mc.Fn == takeBody && core.IsParam("key")(args[1]) {
+				if mc, isMC := args[2].(*ssa.MakeClosure); isMC && mc.Fn == takeBody && core.ParamAt(doTake, 3)(args[1]) {
 					ok = true
 				}
 			}
@@ -320,7 +317,7 @@ func c06(r *core.Run) {
 				}
 			}
 		}
-		chk(f1, "int(ceil(expire/1000000000))")
+		chk(f1, "int(ceil(p4/1000000000))") // p4 = the expire argument
 		chk(f2, "int(ceil(int((1 + d - 2*d*r)*nfe)/1000000000))")
 		cs := core.Calls(f3, core.CallMethod("cache.node", "SetWithExpireCtx"))
 		o.Site(len(cs), core.FuncName(f3))
@@ -361,7 +358,7 @@ func c06(r *core.Run) {
 			for _, in := range core.Instrs(nu, func(in ssa.Instruction) bool { return true }) {
 				if st, isSt := in.(*ssa.Store); isSt && core.FieldAddrName(st.Addr) == "Unstable.deviation" {
 					ok = true
-					if !core.DependsOn(st.Val, core.IsParam("deviation")) {
+					if !core.DependsOn(st.Val, core.ParamAt(nu, 0)) {
 						o.Fail(p.InstrPos(in), "Unstable.deviation is not the constructor argument")
 					}
 				}
@@ -376,12 +373,7 @@ func c06(r *core.Run) {
 		if !o.Need(f != nil, "sqlc.CachedConn.QueryRowIndexCtx") {
 			return
 		}
-		a := &core.Alg{Name: func(v ssa.Value) string {
-			if pa, ok := v.(*ssa.Parameter); ok {
-				return pa.Name()
-			}
-			return ""
-		}}
+		a := &core.Alg{Name: core.ParamIndexName}
 		n := 0
 		for _, g := range core.WithAnon(f) {
 			r.Fn(core.FuncName(g))
@@ -389,7 +381,7 @@ func c06(r *core.Run) {
 				n++
 				args := core.Args(c)
 				got := a.Norm(args[len(args)-1])
-				if !got.Equal(core.ParsePoly("expire + 5000000000")) {
+				if !got.Equal(core.ParsePoly("p1 + 5000000000")) { // p1 = the closure's expire argument
 					o.Fail(p.InstrPos(c), "primary row TTL = %s, expected expire + 5s", got)
 				}
 			}
@@ -443,7 +435,7 @@ func c06(r *core.Run) {
 			}
 			for _, d := range ds {
 				args := core.Args(d)
-				if !core.DependsOn(args[len(args)-1], core.IsFreeVar("keys")) {
+				if !core.DependsOn(args[len(args)-1], core.CapturedParam(g, 1)) {
 					o.Fail(p.InstrPos(d), "the retry task does not delete the failed keys")
 				}
 				// its error is the task's result
@@ -747,7 +739,7 @@ func c06(r *core.Run) {
 			if !core.DependsOn(a[0], func(v ssa.Value) bool { return core.IsResult(v, 0, core.Is(bar[0])) }) {
 				o.Fail(p.InstrPos(u), "the decoded bytes are not the flight's result")
 			}
-			if !core.IsParam("val")(a[1]) {
+			if !core.ParamAt(doTake, 2)(a[1]) {
 				o.Fail(p.InstrPos(u), "the shared result is not decoded into the caller's destination")
 			}
 		}
@@ -757,7 +749,7 @@ func c06(r *core.Run) {
 			v := core.Strip(core.Result(ret, 0))
 			if c, i := core.ResultOf(v); c != nil && i == 0 && core.Short(core.CalleeName(c)) == "lib/jsonx.Marshal" {
 				n++
-				if !core.IsFreeVar("val")(core.Args(c)[0]) {
+				if !core.CapturedParam(doTake, 2)(core.Args(c)[0]) {
 					o.Fail(p.InstrPos(ret), "the flight marshals something other than the destination value")
 				}
 			} else if !core.IsNil(v) {
@@ -767,6 +759,9 @@ func c06(r *core.Run) {
 		if n == 0 {
 			o.Fail(p.Pos(takeBody.Pos()), "the flight never returns the marshalled value (sharing callers would get nothing)")
 		}
+	})
+	isJittered := core.CapturedLocal(func(v ssa.Value) bool {
+		return core.IsResult(v, 0, core.CallMethod("cache.node", "aroundDuration"))
 	})
 	r.Check("D6/K8/take-plumbing", "TakeCtx/TakeWithExpireCtx cache under the key they looked up, and TakeWithExpireCtx uses one jittered expiry for both the query and the cache write", func(o *core.O) {
 		for _, name := range []string{"TakeCtx", "TakeWithExpireCtx"} {
@@ -782,7 +777,7 @@ func c06(r *core.Run) {
 				continue
 			}
 			a := core.Args(dts[0]) // n, ctx, val, key, query, cacheVal
-			if !core.IsParam("val")(a[2]) || !core.IsParam("key")(a[3]) {
+			if !core.ParamAt(f, 2)(a[2]) || !core.ParamAt(f, 3)(a[3]) {
 				o.Fail(p.InstrPos(dts[0]), "%s does not pass its destination and key to doTake in order", name)
 			}
 			cv, ok := core.Strip(a[5]).(*ssa.MakeClosure)
@@ -796,11 +791,11 @@ func c06(r *core.Run) {
 				continue
 			}
 			sa := core.Args(sets[0]) // n, ctx, key, val, [expire]
-			if !core.IsFreeVar("key")(sa[2]) {
+			if !core.CapturedParam(f, 3)(sa[2]) {
 				o.Fail(p.InstrPos(sets[0]), "%s caches the value under a different key than it looked up", name)
 			}
 			if name == "TakeWithExpireCtx" {
-				if !core.IsFreeVar("expire")(sa[4]) {
+				if !isJittered(sa[4]) {
 					o.Fail(p.InstrPos(sets[0]), "the cache write does not use the jittered expiry computed for this take")
 				}
 				q, ok := core.Strip(a[4]).(*ssa.MakeClosure)
@@ -808,12 +803,12 @@ func c06(r *core.Run) {
 					o.Fail(p.InstrPos(dts[0]), "query adapter is not a closure")
 					continue
 				}
-				qc := core.Calls(q.Fn.(*ssa.Function), core.CallOfValue(core.IsFreeVar("query")))
-				if len(qc) != 1 || !core.IsFreeVar("expire")(core.Args(qc[0])[1]) {
+				qc := core.Calls(q.Fn.(*ssa.Function), core.CallOfValue(core.CapturedParam(f, 4)))
+				if len(qc) != 1 || !isJittered(core.Args(qc[0])[1]) {
 					o.Fail(p.Pos(q.Fn.Pos()), "the query callback does not receive the same expiry as the cache write")
 				}
 			} else {
-				if !core.IsParam("query")(a[4]) {
+				if !core.ParamAt(f, 4)(a[4]) {
 					o.Fail(p.InstrPos(dts[0]), "TakeCtx does not pass the caller's query through")
 				}
 			}
@@ -892,11 +887,11 @@ func c06(r *core.Run) {
 			o.Fail(p.Pos(f.Pos()), "QueryRowCtx does not take from the cache exactly once")
 		} else {
 			a := core.Args(ts[0]) // cache, ctx, v, key, closure
-			if !core.IsParam("v")(a[2]) || !core.IsParam("key")(a[3]) {
+			if !core.ParamAt(f, 2)(a[2]) || !core.ParamAt(f, 3)(a[3]) {
 				o.Fail(p.InstrPos(ts[0]), "QueryRowCtx does not take (v, key) in order")
 			}
 			if mc, ok := core.Strip(a[4]).(*ssa.MakeClosure); ok {
-				qs := core.Calls(mc.Fn.(*ssa.Function), core.CallOfValue(core.IsFreeVar("query")))
+				qs := core.Calls(mc.Fn.(*ssa.Function), core.CallOfValue(core.CapturedParam(f, 4)))
 				if len(qs) != 1 {
 					o.Fail(p.Pos(mc.Fn.Pos()), "the take closure does not run the caller's query exactly once")
 				} else {
@@ -918,7 +913,7 @@ func c06(r *core.Run) {
 			if !ok {
 				return false
 			}
-			return core.CallOfValue(core.Or2(core.IsParam("keyer"), core.IsFreeVar("keyer")))(c)
+			return core.CallOfValue(core.ParamOrCaptured(g, 4))(c)
 		}
 		n := 0
 		for _, h := range core.WithAnon(g) {
@@ -936,7 +931,7 @@ func c06(r *core.Run) {
 		}
 		o.Site(n, core.FuncName(g))
 		tw := core.Calls(g, core.CallMethod("cache.Cache", "TakeWithExpireCtx"))
-		if len(tw) != 1 || !core.IsParam("key")(core.Args(tw[0])[3]) {
+		if len(tw) != 1 || !core.ParamAt(g, 3)(core.Args(tw[0])[3]) {
 			o.Fail(p.Pos(g.Pos()), "the index lookup is not taken under the index key")
 		}
 	})
